@@ -76,35 +76,18 @@ def outTok : Outcome → String
   | .rterr _ => "rterr"
   | .panic _ => "PANIC"
 
-/-- `fx=flush,pcapopen,wstd,stdin` (or `fx=-`): the repairs the working tree contains -/
-def parseFx (s : String) : Option Fixes :=
-  if !s.startsWith "fx=" then none else
-  let names := ((s.drop 3).toString.splitOn ",").filter (fun x => x ≠ "" && x ≠ "-")
-  if names.all (fun n => n == "flush" || n == "pcapopen" || n == "wstd" || n == "stdin") then
-    some { flush := names.contains "flush", pcapOpen := names.contains "pcapopen", writeStd := names.contains "wstd",
-           stdinToString := names.contains "stdin" }
-  else none
-
-def runFx (fx : Fixes) (args : List String) : String :=
+def run (args : List String) : String :=
   match args with
   | [_env, ids] =>
     match ((ids.splitOn ",").filter (· ≠ "")).mapM scenario with
     | none => "bad-op"
     | some scs =>
-      let outs := runScript fx (scs.map fun s => (s.params, s.call, s.oracle))
+      let outs := runScript (scs.map fun s => (s.params, s.call, s.oracle))
       let toks := outs.map outTok
       let finished := outs.length == scs.length && outs.all (fun o => match o with | .ok _ => true | _ => false)
       let model := joinWith ";" (toks ++ (if finished then ["done"] else []))
       let spec := "steps " ++ joinWith ";" (scs.map (fun s => if s.failure then "t" else "-") ++ ["done"])
       result model spec
-  | _ => "bad-op"
-
-def run (args : List String) : String :=
-  match args with
-  | [env, ids] => runFx {} [env, ids]
-  | [env, ids, fxs] => match parseFx fxs with
-    | some fx => runFx fx [env, ids]
-    | none => "bad-op"
   | _ => "bad-op"
 
 end P2sh.Driver.IoFaultDrv
